@@ -283,7 +283,7 @@ def gen_group(rng: random.Random, tier: str) -> dict:
     val = 0
     for _ in range(rng.choice([4, 10, 25, 50])):
         t += rng.choice([0, 1, 5, 20, 100, int(rebalance_delay * 1000)])
-        kind = rng.choices(["join", "leave", "poll", "commit", "append"], weights=[3, 2, 4, 3, 5])[0]
+        kind = rng.choices(["join", "leave", "poll", "commit", "append", "stale_commit"], weights=[3, 2, 4, 3, 5, 1])[0]
         if kind == "append":
             ops.append({"t": t, "op": "append", "key": rng.choice(keys), "val": val})
             val += 1
@@ -358,6 +358,13 @@ class _Member(Entity):
                     yield from group.commit(self.name, dict(offs))
                     self.committed.update(offs)
                     hist.append({"op": "commit", "m": self.name, "t0": t0, "t1": self.now.nanoseconds, "offsets": dict(offs)})
+            elif kind == "stale_commit":
+                # a late / duplicated commit of an older position (e.g. overtaken on the way): must be ignored
+                offs = {p: max(0, o - 1) for p, o in self.committed.items() if o > 0}
+                if offs:
+                    self.ctx["stale_commit_sent"] = True
+                    yield from group.commit(self.name, dict(offs))
+                    hist.append({"op": "stale_commit", "m": self.name, "t0": t0, "t1": self.now.nanoseconds, "offsets": dict(offs)})
             op = self.backlog.pop(0) if self.backlog else None
         self.busy = False
         return None
@@ -468,7 +475,7 @@ def run_group(case: dict) -> Result:
                     res.add(
                         "committed-offset-regressed",
                         comp,
-                        shape,
+                        "after-stale-or-duplicated-commit" if ctx.get("stale_commit_sent") else shape,
                         f"member {m} partition {pid}: committed {mon['committed'][key][0]} (seen {mon['committed'][key][1]}ns) -> {c} at {t}ns "
                         f"although the member only commits increasing offsets",
                     )
@@ -527,7 +534,7 @@ def run_group(case: dict) -> Result:
                 if offs != list(range(offs[0], offs[0] + len(offs))):
                     res.add("poll-not-in-offset-order", comp, shape, f"{m} partition {pid}: offsets {offs}")
                 want = hrec["committed"].get(pid, 0)
-                if offs[0] != want:
+                if offs[0] != want and not (ctx.get("stale_commit_sent") and offs[0] < want):  # root cause reported as committed-offset-regressed
                     res.add(
                         "poll-not-from-committed-offset",
                         comp,
